@@ -60,3 +60,12 @@ register('C19', 'E3+E4', 'exhaustive ParameterGrid laws; ALL score tables throug
 register('C20', 'E3+E4', 'exhaustive enumeration of (n, m, modes shape, mode values, n_trials) through the real Multitask on scripted optimizers with the model pools',
          'Exactly n_trials runs per (algorithm, task) pair with the designated mode for all four documented shapes; unknown modes rejected at construction; table shapes; exported directory tree.',
          'n, m <= 3; 3x3 per-pair shape restricted to <= 2 non-serial entries in the quick tier', '3 C20')
+register('C07', 'E1', 'enumeration of ambient generator histories x same/fresh process x seeds for every optimizer, with entropy-escape tripwires armed in every explored execution',
+         'For every optimizer x task prototype x integer seed the runs after each ambient history and in a fresh subprocess give identical results; no call into stdlib random / unseeded generators / os.urandom occurs in any explored execution.',
+         'serial mode; seeds {0, 1, 42, 2^32-1}; ambient alphabet of 5 histories', '3 C07')
+register('C11', 'E2+E1', 'exhaustive schedules of pooled calls: atomic model pools under all completion orders x worker assignments x report orders, interleaved real threads under all interleavings up to a pre-emption bound (RNG-point and source-line granularity); conformance against the real executors',
+         'Pooled agent generation and greedy selection keep every guarantee (count, feasibility, truthful cost, exactly-once evaluation, pairwise distinct initial agents) on every schedule; whole runs in thread/process mode hold the serial invariants under schedule deviations.',
+         'n <= 4 pooled calls in the dedicated harness; no switch inside a source line; fork-faithful process model validated by conformance runs', '3 C11')
+register('C18', 'E3+E1', 'bounded-exhaustive enumeration of parameter dictionaries (<= 1 field deviating over a field alphabet) and pairs of executions for the two construction paths under the same choice list',
+         'Bare construction, refusal to optimise, agreement of set_config_parameters with the config class, and identical runs for Cls(Config(**d)) vs Cls()+set_config_parameters(d).',
+         'run equivalence only with fixture population/cycles; wrong-typed values need only agree between the two paths', '3 C18')
